@@ -114,11 +114,20 @@ func runHarness(l *Loaded, fn *ssa.Function, tier int, workers int) *HarnessResu
 	t0 := time.Now()
 	ex := &Explorer{
 		prog: l.prog, pkgs: l.pkgs, harness: fn, name: fn.Name(), tier: tier,
-		maxSteps: 5_000_000, feasTO: 4000, obligTO: 20000, useCVC: true,
+		maxSteps: 5_000_000, feasTO: 3000, obligTO: 8000, useCVC: true,
 		encoded: map[string]bool{}, maxPaths: 200000,
 	}
 	if tier == 1 {
-		ex.feasTO, ex.obligTO, ex.maxPaths = 8000, 60000, 2000000
+		ex.feasTO, ex.obligTO, ex.maxPaths = 6000, 30000, 2000000
+	}
+	concreteMu.Lock()
+	first := concreteEx == nil
+	if first {
+		concreteEx = ex
+	}
+	concreteMu.Unlock()
+	if first {
+		summaryBattery()
 	}
 	if v := os.Getenv("GOSMT_NOCVC"); v != "" {
 		ex.useCVC = false
